@@ -341,7 +341,7 @@ func (p *Path) violate(label string, extra []*B) bool {
 		return true
 	}
 	h.mu.Unlock()
-	r, m, how := p.check(extra, false, true, true, true)
+	r, m, how := p.exactModel(extra)
 	switch r {
 	case Unsat:
 		return false
@@ -388,4 +388,56 @@ func (p *Path) checkAlloc(in *Interp, n Lin) {
 	if !p.branch("alloc-limit", bLin(n.addC(-p.allocLimit), LE0)) {
 		p.violate(fmt.Sprintf("allocation larger than the limit of %d bytes before the bytes arrived", p.allocLimit), nil)
 	}
+}
+
+// exactModel finds a model of pc && extra in which every string<->integer link holds exactly.
+// The abstraction (interval facts only) is tried first; its model is checked concretely and, if
+// a link is off, repaired by pinning; the exact str.to_int encoding is the last resort.
+func (p *Path) exactModel(extra []*B) (Tri, map[string]string, string) {
+	r, m, how := p.check(extra, false, false, true, true)
+	if r != Sat || len(p.links) == 0 {
+		return r, m, how
+	}
+	linkOK := func(m map[string]string) bool {
+		mm := &Model{p: p, m: m}
+		for _, l := range p.links {
+			sv := mm.nf(p.res(l.s))
+			act, err := strconv.ParseInt(sv, 10, 64)
+			if err != nil || act != mm.ivar(l.v) {
+				return false
+			}
+		}
+		return true
+	}
+	if linkOK(m) {
+		return Sat, m, how
+	}
+	mm := &Model{p: p, m: m}
+	// repair 1: keep the strings, set the integers to their true values
+	var pins []*B
+	okPins := true
+	for _, l := range p.links {
+		sv := mm.nf(p.res(l.s))
+		act, err := strconv.ParseInt(sv, 10, 64)
+		if err != nil {
+			okPins = false
+			break
+		}
+		pins = append(pins, p.strEq(l.s, nfLit(sv)), bLin(linV(l.v).addC(-act), EQ0))
+	}
+	if okPins {
+		if r2, m2, how2 := p.check(append(append([]*B{}, extra...), pins...), false, false, true, true); r2 == Sat && linkOK(m2) {
+			return Sat, m2, how2 + "+pinned-strings"
+		}
+	}
+	// repair 2: keep the integers, set the strings to their decimal text
+	pins = nil
+	for _, l := range p.links {
+		v := mm.ivar(l.v)
+		pins = append(pins, p.strEq(l.s, nfLit(strconv.FormatInt(v, 10))), bLin(linV(l.v).addC(-v), EQ0))
+	}
+	if r2, m2, how2 := p.check(append(append([]*B{}, extra...), pins...), false, false, true, true); r2 == Sat && linkOK(m2) {
+		return Sat, m2, how2 + "+pinned-integers"
+	}
+	return p.check(extra, false, true, true, true)
 }
